@@ -74,6 +74,28 @@ PROPS['C11'] = {'level': 'proof', 'theorems': [], 'modes': [{'mode': 'export', '
 
 
 # ---------------------------------------------------------------------------------------------------------------
+# Integrated builder components: checks run (./check Cxx works), 'registered': False until the claim is reviewed;
+# 'claim_draft' is the proposed CLAIMS text.
+PROPS['C23'] = {
+    'level': 'proof', 'registered': False,
+    'modules': ['MinterProofs.Props.C23'],
+    'theorems': ['Minter.Rlp.encode_decode', 'Minter.Rlp.decode_inj', 'Minter.Rlp.decode_encode', 'Minter.Rlp.decode_fuel_irrelevant',
+                 'Minter.Rlp.decode_prefix_free', 'Minter.Rlp.decode_no_trailing', 'Minter.Rlp.asUint_canonical', 'Minter.Rlp.uint_canonical',
+                 'Minter.Rlp.encodeTx_decodeTx', 'Minter.Rlp.decodeTx_encodeTx', 'Minter.Rlp.decodeTx_wf', 'Minter.Rlp.decodeTx_inj',
+                 'Minter.Rlp.accepts_reencode', 'Minter.Rlp.acceptsTx_reencode', 'Minter.Rlp.check_reencode',
+                 'Minter.Rlp.encodeSig_decodeSig', 'Minter.Rlp.decodeSig_encodeSig', 'Minter.Rlp.decodeSig_inj',
+                 'Minter.Rlp.validSig_iff', 'Minter.Rlp.highS_rejected', 'Minter.Rlp.highS_flip_rejected', 'Minter.Rlp.bad_v_rejected',
+                 'Minter.Rlp.zero_sig_rejected', 'Minter.Rlp.out_of_range_rejected', 'Minter.Rlp.single_sig_encoding_unique',
+                 'Minter.Rlp.multisig_signature_list_not_canonical'],
+    'modes': [{'mode': 'rlp', 'args': ['-seed', '{seed}', '-n', '{n:3000:30000}', '-driver', '{driver}', '-keep', '{keep}']}],
+    'assumptions': ['ECDSA recovery and Keccak are oracles: Ecrecover returns the key that signed the hash; the only third-party transformation of a signature is (v xor 1, r, N-s); the hash determines the nine signed fields',
+                    'equivalence of Go\'s streaming typed decoders with generic decode + schema conformance is established by the differential mode, not by proof',
+                    'size limits outside C23 (maxTxLength 16144, payload 10000, service data 128) are not modelled'],
+    'claim_draft': "Lean theorems (MinterProofs/Props/C23.lean, core Lean only, for all byte strings / items / naturals): the strict RLP decoder accepts nothing but the encoder's output for the item it returns and no item has two accepted encodings (encode_decode, decode_inj, decode_encode under the uint64 length bound, decode_prefix_free, decode_no_trailing, decode_fuel_irrelevant); integers are accepted only as minimal big-endian bytes within their width (uint_canonical, asUint_canonical); the outer transaction, every one of the 37 data structs GetDataV3 resolves to, Signature/SignatureMulti and check.Check re-encode to exactly the bytes that were accepted (encodeTx_decodeTx, decodeTx_encodeTx, decodeTx_wf, decodeTx_inj, accepts_reencode, acceptsTx_reencode, check_reencode, encodeSig_decodeSig, decodeSig_encodeSig, decodeSig_inj); the signature-value check has the closed form V in {27,28}, 1<=r<N, 1<=s<=N/2 (validSig_iff) so the high-S twin, any other V, zero and out-of-range values are rejected (highS_rejected, highS_flip_rejected, bad_v_rejected, zero_sig_rejected, out_of_range_rejected); hence for single-signature transactions the accepted bytes are a function of (signed content, v, r, s) (single_sig_encoding_unique). Tie: mode rlp runs the real rlp.DecodeBytes/EncodeToBytes, DecodeFromBytes of the executor, tx.Sender(), check decoding and Serialize() against the Lean definitions on generated items, all 37 transaction types (single and multisig), structurally mutated / non-canonically re-encoded / corrupted bytes and signature edge triples (Q functions rlpdec rlpenc beint uintdec uintenc txdec txenc txfull sigdec msigdec sigok chkdec), and checks on the real code that flipping v or s is rejected. Partial: ECDSA/Keccak are oracles; the last clause of C23 fails for SignatureType=2 - the signature list of a multisig transaction is not covered by tx.Hash and is accepted in any order / trimmed / padded (multisig_signature_list_not_canonical states the boundary on real bytes; the mode reproduces it on the node and reports it as the known finding multisig-signature-malleability).",
+}
+
+
+# ---------------------------------------------------------------------------------------------------------------
 # What is claimed (MANIFEST.json is generated from this by tools/gen_manifest.py)
 CLAIMS = {
  'C01': "Lean theorems: every plan the model's DeliverTx can produce is built from value moves that are balanced by construction (Move.balanced, planOf_balanced), and checked application of a balanced plan preserves volume=holdings for every custom coin and the base-coin total up to recorded emission (balanced_preserves, C01_deliver_conserves, C01_block_body_conserves); for all states, transactions and oracle answers. Tie: model executed next to the real node on generated histories; monitors volumesOk/baseDeltaOk (the same Lean definitions) evaluated on the node's export at every commit.",
